@@ -35,15 +35,22 @@ func init() {
 	registerMore()
 	addProp(&PropSpec{
 		ID: "C12",
-		Explanation: "Header-framing Recv executed symbolically from /repo's channel/hdr.go with the Content-Length value an arbitrary non-negative 64-bit int " +
+		Explanation: "Four harnesses over the real channel code with the real bufio.Reader (16-byte buffer) executed from source. (a) split.Recv on an arbitrary byte stream (all bytes symbolic) against the reference 'records are the terminated lines; a cut-off tail is reported whole with an error; then it keeps failing', under symbolic chunking and EOF-with-data. " +
+			"(b) hdr/opthdr.Recv on a stream generated from a symbolic grammar (optional Content-Type line matching or not, optional unknown field or non-header line, Content-Length line with case variants, optional white space and an arbitrary 0..2-byte value, CRLF/LF, blank line present or missing, body bytes symbolic) against a reference decoder written from the package documentation (strconv.Atoi is modelled exactly for short digit strings). (c) arbitrary short raw streams through hdr.Recv: errors only, no panic. " +
+			"(d) Header-framing Recv with the Content-Length value an arbitrary non-negative 64-bit int " +
 			"(decimal text kept as an opaque integer token; strconv.Atoi is its inverse) and three classes of previous receive-buffer length; " +
 			"the makeslice length/capacity check of the Go runtime is an explicit path obligation, so an overflowing size*2 is found by the solver.",
-		Bounds: []string{"Content-Length: any int in [0, 3] or (2^15, 2^63)", "previous buffer length in {0, 8, 64}", "body absent (ReadFull / CopyN stubs return EOF)",
+		Bounds: []string{"split streams <= 4 bytes (thorough 6); header grammar: <= 3 header lines, value <= 2 bytes, body 2 bytes (thorough 0..3), declared size <= 3; raw streams <= 4 bytes (thorough 6)",
+			"chunking: all-at-once with/without EOF-with-data for the header grammar (thorough: 1/2/3-byte reads and every single cut); all five policies for split",
+			"Content-Length: any int in [0, 3] or (2^15, 2^63)", "previous buffer length in {0, 8, 64}", "body absent (ReadFull / CopyN stubs return EOF)",
 			"allocations above 65536 elements are pruned (outside the claim): sizes in (2^15, 2^24] are not decided by this harness"},
 		Outside:     []string{"RawJSON framing (encoding/json streaming decoder)", "memory exhaustion below the makeslice limit"},
 		Assumptions: append([]string{"bufio.Reader.ReadString is redirected to a line script in the size harness (lines carry the opaque integer token); io.ReadFull stub: 0 bytes -> io.EOF", "runtime: make([]byte, n, c) panics iff n<0 or n>c or c>2^48 (linux/amd64 maxAlloc)"}, commonAssumptions...),
 		Harnesses: []HarnessSpec{
 			{Dir: "channel", Name: "Harness_C12_hdr_size", Reach: []string{"recv-returned"}},
+			{Dir: "channel", Name: "Harness_C12_split", Reach: []string{"line", "cut-off-tail", "exhausted"}},
+			{Dir: "channel", Name: "Harness_C12_hdr", Reach: []string{"bad-header", "bad-length", "short-body", "record", "drained"}},
+			{Dir: "channel", Name: "Harness_C12_hdr_raw", Reach: []string{"raw-done"}},
 		},
 	})
 }
@@ -136,6 +143,19 @@ func delays(q, t int) func(*Config, bool) {
 }
 
 func registerMore2() {
+	addProp(&PropSpec{
+		ID: "C11",
+		Explanation: "1..2 (thorough 3) records of 0..3 symbolic bytes each, plus optionally one record longer than the bufio buffer, are written by the real Send of the Split and Header framings (StrictHeader with and without content type, and the opthdr wrapper used by Header/LSP); the resulting byte stream is served by a reader with a symbolic chunking policy " +
+			"(all at once; uniform 1-, 2-, 3-byte reads; one cut at every position; final bytes with or without io.EOF) to the real bufio.Reader (executed from source, 16-byte buffer so that buffer-full continuation and refills occur) and the real Recv. Received records must equal the sent ones byte for byte and in order, then io.EOF, then errors. Send must refuse a record containing the split byte without writing.",
+		Bounds:      []string{"records: <= 2 x <= 3 symbolic bytes + optional 18/20-byte record", "bufio buffer 16 bytes (production: 4096; the code is parametric)", "chunking policies as listed"},
+		Outside:     []string{"RawJSON (boundaries found by encoding/json's streaming decoder: not encodable) and Direct (Go channels; exercised by the threaded harnesses only through the instrumented channel)", "multi-megabyte records and the hdr receive-buffer grow/shrink policy beyond 64 bytes"},
+		Assumptions: append([]string{"bufio.Reader, io.ReadFull, bytes helpers executed from source; bytes.Buffer and strings.Builder are engine intrinsics with the same observable behaviour"}, commonAssumptions...),
+		Harnesses: []HarnessSpec{
+			{Dir: "channel", Name: "Harness_C11_split", Reach: []string{"roundtrip"}},
+			{Dir: "channel", Name: "Harness_C11_split_guard", Reach: []string{"refused", "accepted"}},
+			{Dir: "channel", Name: "Harness_C11_hdr", Reach: []string{"roundtrip"}},
+		},
+	})
 	addProp(&PropSpec{
 		ID: "C01",
 		Explanation: "One inbound message of 1..2 (thorough 1..3) valid requests, each symbolically a call (arbitrary distinct id) or a notification, is run through the real dispatchLocked closure (handler goroutines as engine threads) with symbolic handler outcomes: any result token, *Error with any int32 code, wrapped coded error, context error, unmarshalable result - also for notifications. " +
